@@ -30,7 +30,7 @@ OPTS = {'quick': {'unit_timeout_s': 900}, 'thorough': {'unit_timeout_s': 1800}}
 
 META = {
     'assumptions': [
-        'B (bounded scenarios): ten Joliet edit scripts (levels 1/2/3; names outside ASCII and outside the BMP, 64-character names, names differing only in case; Joliet-only directories and links, ISO-only entries; 40 long names in one directory (multi-sector Joliet directory), 20 directories with 55-character names (Joliet path table beyond one sector) with removals; links with the same name in different directories removed and re-added while data moves; with Rock Ridge) mastered, reopened, re-mastered and edited inside pyvc; file CONTENTS symbolic; decoded by the independent reader starting from the supplementary descriptor only',
+        'B (bounded scenarios): nine Joliet edit scripts (levels 1/2/3; names outside ASCII and outside the BMP, 64-character names, names differing only in case; Joliet-only directories and links, ISO-only entries; 40 long names in one directory (multi-sector Joliet directory), 20 directories with 55-character names (Joliet path table beyond one sector) with removals; links with the same name in different directories removed and re-added while data moves; with Rock Ridge) mastered, reopened, re-mastered and edited inside pyvc; file CONTENTS symbolic; decoded by the independent reader starting from the supplementary descriptor only',
         'JolietName units: for ASCII names every name content of the swept lengths is symbolic; non-ASCII names are concrete samples around the 64-unit limit (the conversion is CPython codec code, modelled by pyvc for the sampled strings)',
         'Joliet shares the descriptor / directory record / path table record layouts and the ordering relation with ISO9660: their contracts (VDRecord type 2, PTRRecord, PTRLength, DirectoryRecord.__lt__) are run here as well',
     ],
@@ -38,11 +38,11 @@ META = {
         'arbitrary Unicode names and edit histories: name handling is proved per length for ASCII and sampled beyond; tree-level claims hold for the scripts',
         'pycdlib refuses names longer than 64 UTF-8 BYTES, which is stricter than the 64 UCS-2 units Joliet allows: some names Joliet could hold are refused (never truncated); the property does not demand acceptance, so this is not reported',
     ],
-    'bounded': ['10 scenarios', 'JolietName lengths 1..100 (quick: 8 lengths)'],
+    'bounded': ['9 scenarios', 'JolietName lengths 1..100 (quick: 8 lengths)'],
 }
 
 MANIFEST = {
     'level_text': 'Joliet scenarios executed by the verifier on the real code (symbolic file contents) and decoded by an independent reader from the supplementary descriptor alone: exactly the Joliet tree the edits imply with names equal to the UTF-16BE of the given names, independent of the ISO9660 tree, every Joliet file on the same sectors as its ISO9660 link and byte for byte the given content, own consistent path tables (L = M, standard order, declared size), escape sequence of the requested level, identifiers of at most 64 units, sizes agreeing with the primary descriptor; reopened, re-mastered identically and edited. Deductive contracts on joliet_vd_factory, _joliet_name_and_parent_from_path (over-long names refused, accepted names recorded as exactly their UTF-16BE form, for every ASCII content of each length), the shared record layouts and ordering, and refusal scenarios (Joliet file / non-empty directory given to rm_directory, duplicate link). One defect found and repaired (K15: rm_directory dropped non-empty Joliet directories).',
-    'level_note': 'Scenario part bounded (10 scripts) but symbolic in all file contents; name conversion proved per length for ASCII, sampled for other scripts. Trusted: pyvc, the independent reader, CPython UTF-8/UTF-16 codecs as modelled.',
+    'level_note': 'Scenario part bounded (9 scripts) but symbolic in all file contents; name conversion proved per length for ASCII, sampled for other scripts. Trusted: pyvc, the independent reader, CPython UTF-8/UTF-16 codecs as modelled.',
     'design_ref': 'DESIGN.md section 4 C09',
 }
